@@ -11,12 +11,12 @@ package parse
 
 // "the text after the first space is the value"
 //@ func Command
-//@   props C12 C19
+//@   props C12 C19 C13
 //@   ensures !strings.Contains(value, " ") ==> result0 == value && result1 == ""
 //@   ensures strings.Contains(value, " ") ==> value == result0 + " " + result1 && !strings.Contains(result0, " ")
 
 //@ func Enum
-//@   props C12
+//@   props C12 C13
 //@   ensures len(strings.Fields(remaining)) == 0 && empty ==> result == "" && err == nil
 //@   ensures (len(strings.Fields(remaining)) == 0 && !empty) || len(strings.Fields(remaining)) > 1 ==> err != nil
 //@   ensures len(strings.Fields(remaining)) == 1 ==> (err == nil) == (exists i int :: 0 <= i && i < len(values) && strings.Fields(remaining)[0] == string(values[i]))
@@ -30,7 +30,7 @@ package parse
 //@   ensures err == nil ==> result == BoolValue(remaining)
 
 //@ func String
-//@   props C12
+//@   props C12 C13
 //@   ensures (err == nil) == StringOK(remaining)
 //@   ensures err == nil ==> result == StringValue(remaining)
 //@   ensures err != nil ==> result == ""
@@ -42,7 +42,7 @@ package parse
 // ---- C19: a line of the flattened doc comment is a setting iff its trimmed text starts with
 // ---- "goverter:"; the setting text is what follows the prefix; lines are appended in scan order ----
 //@ func SettingLines
-//@   props C19 C12
+//@   props C19 C12 C13
 //@   pure
 //@   at call append#1 assert strings.HasPrefix(strings.TrimSpace(scanner.Text()), "goverter:")
 //@           && arg1 == strings.TrimPrefix(strings.TrimSpace(scanner.Text()), "goverter:")
